@@ -15,6 +15,6 @@ CONSTANTS
   MaxFaults = 0
   Quirks = {}
 VIEW core
-INVARIANTS TypeOK StatusOK ExitedOK WalkOK EventsOK ResultsOK
+INVARIANTS TypeOK StatusOK ExitedOK WalkOK EventsOK ResultsOK SegmentsOK
 
 CHECK_DEADLOCK FALSE
